@@ -69,7 +69,8 @@ def exc_matches(cls, handler_names):
 # ---------------------------------------------------------------------------------------------- contracts
 
 class Loop:
-    def __init__(self, inv=(), frame=(), decreases=None, summary=None, assume=()):
+    def __init__(self, inv=(), frame=(), decreases=None, summary=None, assume=(), rebind=None):
+        self.rebind = dict(rebind or {})   # {local: Sort}: locals the body REBINDS to values of another size (x = f(x, ...)): arbitrary within the sort at the loop head
         self.assume = list(assume)      # [(name, fn(View))]: preconditions on the arbitrary element of an abstract collection
         self.inv = list(inv)            # [(name, fn(View) -> z3 Bool)]
         self.frame = list(frame)        # heap path patterns / 'loc:<name>' / '$name' locals the body may write
@@ -311,7 +312,7 @@ class Engine:
         for a, d in zip(args.kwonlyargs, args.kw_defaults):
             if d is not None:
                 defaults[a.arg] = d
-        sliced = getattr(c, 'body_from', None) is not None
+        sliced = getattr(c, 'body_from', None) is not None or isinstance(getattr(c, 'body_to', None), str)
         for nm in names:
             if sliced and nm not in c.params:
                 continue              # a slice declares the names it reads (params / locals); the others are not in scope
@@ -348,8 +349,15 @@ class Engine:
             if not idx:
                 raise Unsupported('slice marker %r not found among the top-level statements' % bf)
             body = body[idx[0]:]
-            if getattr(c, 'body_to', None):
+            if getattr(c, 'body_to', None) and not isinstance(c.body_to, str):
                 body = body[:c.body_to]       # ... and the statements after the slice as well
+        bt = getattr(c, 'body_to', None)
+        if isinstance(bt, str):
+            # the slice ends before the first top-level statement whose source starts with ``bt``
+            idx = [i for i, s_ in enumerate(body) if ast.unparse(s_).startswith(bt)]
+            if not idx:
+                raise Unsupported('slice end marker %r not found among the top-level statements' % bt)
+            body = body[:idx[0]]
         outs = self.block(body, st)
         for s, kind, payload in outs:
             if kind is None:
@@ -1250,6 +1258,10 @@ class Engine:
         self.havoc_frame(head, spec.frame)
         allowed_locs |= self.frame_locs(head, spec.frame)
         head.writes = _sw
+        for nm, srt in getattr(spec, 'rebind', {}).items():
+            head.env[nm] = srt.make(head, nm + '@loop%d' % lid)
+            if isinstance(head.env[nm], Ref):
+                allowed_locs.add(head.env[nm].loc)       # the body may also mutate the rebound value in place
         head_locs = set(head.locs) | set(head.initial_locs)
         head.env[idx_name] = fresh('i%d' % lid, I)
         for name, fn in spec2.inv:
@@ -2111,6 +2123,12 @@ class Engine:
                                   'arith')
             if isinstance(ca, ListC) and isinstance(cb, ListC) and isinstance(op, ast.Add):
                 return st.new_ref(ListC(ca.items + cb.items), 'list')
+            if isinstance(op, ast.Mult) and isinstance(ca, ListC) and len(ca.items) == 1 and cb is None and is_intlike(b) and not isinstance(b, bool):
+                # [x] * n: n copies of x (none when n <= 0)
+                x = ca.items[0]
+                xt = x.val if isinstance(x, NR) else to_z3(x)
+                nn = to_z3(b)
+                return st.new_ref(SeqC(z3.K(I, xt), z3.If(nn > 0, nn, z3.IntVal(0)), None), 'repeat')
             raise Unsupported('binary operation on %r, %r' % (ca, cb))
         if isinstance(a, (int, float)) and isinstance(b, (int, float)) and not isinstance(a, bool) and not isinstance(b, bool):
             try:
@@ -2510,6 +2528,10 @@ class Engine:
                 if name == 'extend' and isinstance(args[0], Ref) and isinstance(st.content(args[0]), ListC):
                     st.set_content(base, ListC(c.items + st.content(args[0]).items))
                     return None
+                if name == 'extend' and not c.items and isinstance(args[0], Ref) and isinstance(st.content(args[0]), SeqC):
+                    o = st.content(args[0])
+                    st.set_content(base, SeqC(o.arr, o.n, o.nans))      # [] extended by a sequence: a copy of that sequence
+                    return None
                 if name == 'clear':
                     st.set_content(base, ListC([]))
                     return None
@@ -2683,6 +2705,11 @@ def _int(ex, st, args, kw, node):
         return int(v)
     if z3.is_expr(v) and z3.is_bool(v):
         return z3.If(v, z3.IntVal(1), z3.IntVal(0))
+    if isinstance(v, NR):
+        # int(float) truncates toward zero; int(nan) raises ValueError
+        if v.nan is not False:
+            ex.oblige(st, 'int()-of-a-float-that-is-not-NaN', z3.Not(v.nanz()), {})
+        return z3.If(v.val >= 0, z3.ToInt(v.val), -z3.ToInt(-v.val))
     raise Unsupported('int() of %r' % (v,))
 
 
